@@ -76,7 +76,10 @@ pub fn build_case(profile_name: &str, mode: Mode, seed: u64, case: u64) -> Case 
     } else {
         Arc::new(Universe::generate(&mut rng, profile.n_g, profile.n_w, profile.n_d))
     };
-    let filter_seed = if rng.below(100) < u64::from(profile.filter_pct) { Some(rng.next_u64()) } else { None };
+    // NOTE: a compaction filter makes logical content depend on *when* compactions see an entry
+    // (a replaced value may be shown to the filter again), so lock-step groups run without one
+    let filter_ok = matches!(mode, Mode::Single | Mode::Shared);
+    let filter_seed = if filter_ok && rng.below(100) < u64::from(profile.filter_pct) { Some(rng.next_u64()) } else { None };
     let obs_seed = rng.next_u64();
 
     let mut cfgs = vec![];
@@ -250,6 +253,7 @@ pub fn run_case(case: &Case, keep: Option<&BTreeSet<usize>>, scratch: &Path, cas
             scan_cases: if case.profile.name == "scan" { 6 } else { 2 },
             fifo: case.mode == Mode::Fifo,
             known: known.clone(),
+            filter_large_len: case.cfgs.iter().filter_map(|c| c.kv.as_ref().map(|k| k.threshold as usize + 3)).max().unwrap_or(300).max(12),
         };
         match Instance::create(&dir, cfg.clone(), case.uni.clone(), opts) {
             Ok(mut inst) => {
